@@ -583,6 +583,9 @@ func gen(c *hx.Ctx) {
 		}
 		c.Emit("unique %s %s", kind, showInts(a))
 	}
+	// 7. multi-word element types (structs, arrays) on small and BIG inputs (big.go); last, so that the random stream of
+	// the generators above is what it was
+	genTyped(c)
 }
 
 func itoa(i int) string { return strconv.Itoa(i) }
